@@ -101,7 +101,7 @@ class SourceCoverage:
                         j += 1
                     ranges.append(str(miss[i]) if i == j else f"{miss[i]}-{miss[j]}")
                     i = j + 1
-                out[os.path.relpath(p, os.path.realpath(REPO))] = {"executable": len(ex), "executed": len(hit), "not_executed": ranges[:60]}
+                out[os.path.relpath(p, os.path.realpath(REPO))] = {"executable": len(ex), "executed": len(hit), "not_executed": ranges}
         return out
 
 
